@@ -12,7 +12,7 @@ import os
 import re
 import sys
 
-from .. import facts, hirq, wire
+from .. import facts, hirq, mirg, wire
 from ..rules import norm
 
 sys.path.insert(0, os.path.join(facts.VERIF, "reference"))
@@ -356,6 +356,116 @@ def run(ctx):
                             "the format skips deleted entries (0xFFFFFFFE) and stops only at never-used ones (0xFFFFFFFF): a file that sits behind a deleted slot in an archive maintained by another implementation is reported missing")
         if n_dec == 0:
             ctx.bad(R_del, "%s|no-state-exit" % path.split("::")[-1], f.where, "no not-found exit on the entry's state recognised", "anchor shape changed")
+
+    # the format does not fix the order of the tables in the file: a difference of two *different* tables' positions is only
+    # meaningful under a comparison of the two (other writers put the block table before the hash table)
+    R_ord = ctx.rule("C02.table-order-not-assumed", "every difference (`-` or saturating_sub) of two different header table positions sits under an `if` comparing those two positions", floor=1)
+    TABLE_POS = re.compile(r"^(get_)?(hash_table_pos|block_table_pos|het_table_pos|bet_table_pos|hi_block_table_pos)$")
+
+    def roots_of(body, e, depth=3):
+        out = set()
+        for x in hirq.walk(e):
+            if x.get("k") in ("field",) and TABLE_POS.match(x.get("name") or ""):
+                out.add(TABLE_POS.match(x["name"]).group(2))
+            elif x.get("k") == "mcall" and TABLE_POS.match(x.get("m") or ""):
+                out.add(TABLE_POS.match(x["m"]).group(2))
+            elif x.get("k") == "path" and "local" in x["res"] and depth > 0:
+                for v in hirq.local_values(body, x["res"]["local"]):
+                    if v is not None:
+                        out |= roots_of(body, v, depth - 1)
+        return out
+
+    def visit(body, n, guards, f):
+        if isinstance(n, list):
+            for y in n:
+                visit(body, y, guards, f)
+            return
+        if not isinstance(n, dict):
+            return
+        k = n.get("k")
+        if k == "if":
+            visit(body, n["c"], guards, f)
+            g = roots_of(body, n["c"]) if any(x.get("k") == "bin" and x["op"] in ("<", "<=", ">", ">=") for x in hirq.walk(n["c"])) else set()
+            visit(body, n["then"], guards + [g], f)
+            if n.get("else") is not None:
+                visit(body, n["else"], guards + [g], f)
+            return
+        diff = None
+        if k == "bin" and n["op"] == "-":
+            diff = (n["l"], n["r"], "-")
+        elif k == "mcall" and n["m"] in ("saturating_sub", "wrapping_sub", "checked_sub", "abs_diff") and len(n.get("args") or []) == 1:
+            diff = (n["recv"], n["args"][0], n["m"])
+        if diff is not None:
+            ra, rb = roots_of(body, diff[0]), roots_of(body, diff[1])
+            if len(ra) == 1 and len(rb) == 1 and ra != rb:
+                pair = ra | rb
+                inst = {"fn": f.path.split("::")[-1], "line": n.get("ln"), "difference": hirq.render(n)[:70]}
+                if diff[2] in ("checked_sub", "abs_diff") or any(pair <= g for g in guards):
+                    ctx.ok(R_ord, inst)
+                else:
+                    ctx.bad(R_ord, "%s|%s" % (f.path.split("::")[-1], "-".join(sorted(pair))), "%s:%d" % (f.file, n.get("ln") or 0),
+                            "`%s` subtracts the position of one table from another's without a comparison of the two" % hirq.render(n)[:80],
+                            "an archive whose tables are stored in the other order (legal, and what other writers produce) yields 0 or a wrapped value: the table is misjudged as compressed / truncated and the archive's files are not found")
+        for v in n.values():
+            if isinstance(v, (dict, list)):
+                visit(body, v, guards, f)
+    for f in mpq.fn_list:
+        if not f.hir or f.kind == "Closure" or "::tests::" in f.path or "::debug::" in f.path or not re.search(r"::archive::|::header::|::tables::", f.path):
+            continue
+        visit(f.hir["body"], f.hir["body"], [], f)
+
+    # method 0x02 is a zlib (RFC 1950) stream: any header with CM = 8, CINFO <= 7 and a valid FCHECK is legal, not only 0x78 xx.
+    # A raw-deflate decoder may be a fallback after the zlib decoder failed, never a choice made from the first byte(s) unless the
+    # choice is exact (decided by evaluating the guard over every legal two-byte header).
+    R_zl = ctx.rule("C02.zlib-streams-decoded-as-zlib", "in zlib::decompress no path reaches a raw-deflate decoder without having tried the zlib decoder, unless its guard rejects every legal RFC 1950 header", floor=1)
+    zf = fns.get(M + "compression::algorithms::zlib::decompress")
+    if zf is None or not zf.mir:
+        ctx.bad(R_zl, "zlib::decompress|missing", "-", "function not found", "anchor gone")
+    else:
+        ctx.saw_fn(zf)
+        zl_new = [bb for bb, t in mirg.iter_calls(zf) if re.search(r"flate2::zlib::(read|bufread|write)::ZlibDecoder(::<.*>)?::new", mirg.callee(t) or "") or re.search(r"flate2::mem::Decompress::new$", mirg.callee(t) or "") and mirg.op_int(t["a"][0]) == 1]
+        raw_new = [(bb, t) for bb, t in mirg.iter_calls(zf) if re.search(r"flate2::deflate::(read|bufread|write)::DeflateDecoder(::<.*>)?::new|miniz_oxide::inflate::decompress_to_vec(_with_limit)?$", mirg.callee(t) or "") or
+                   (re.search(r"flate2::mem::Decompress::new$", mirg.callee(t) or "") and mirg.op_int(t["a"][0]) == 0)]
+        if not zl_new:
+            ctx.bad(R_zl, "zlib::decompress|no-zlib-decoder", zf.where, "no zlib decoder is constructed", "zlib-framed sectors cannot be read")
+        else:
+            zcfg = mirg.Cfg(zf)
+            ok_, wit = zcfg.must_pass(set(zl_new), [bb for bb, _ in raw_new])
+            if ok_:
+                ctx.ok(R_zl, {"zlib_decoder_sites": len(zl_new), "raw_deflate_sites": len(raw_new), "raw_only_after_zlib": True})
+            else:
+                # exactness of the guard, over every legal header
+                exact = None
+                try:
+                    guards = [n for n in hirq.find(zf.hir["body"], "if") if any("DeflateDecoder" in (c.get("fn") or "") or "decompress_to_vec" in (c.get("fn") or "") for c in hirq.calls(n))]
+                    lets_ = {l["pat"]["name"]: l["init"] for l in hirq.find(zf.hir["body"], "let") if l["pat"].get("k") == "bind" and l.get("init") is not None}
+                    bad_hdr = None
+                    for g in guards:
+                        in_then = any("DeflateDecoder" in (c.get("fn") or "") or "decompress_to_vec" in (c.get("fn") or "") for c in hirq.calls(g["then"]))
+                        for cinfo in range(8):
+                            b0 = (cinfo << 4) | 8
+                            for b1 in range(256):
+                                if ((b0 << 8) | b1) % 31:
+                                    continue
+                                leaf = lambda r_, b0=b0, b1=b1: b0 if re.search(r"\[0\]$", r_) else b1 if re.search(r"\[1\]$", r_) else 64 if r_.endswith(".len()") else None
+                                env = {"__leaf__": leaf}
+                                try:
+                                    c = _bval(g["c"], env, lets_)
+                                except _NoEval:
+                                    # `.is_empty()` and friends
+                                    raise
+                                if c == in_then and bad_hdr is None:
+                                    bad_hdr = (b0, b1)
+                    exact = bad_hdr is None and bool(guards)
+                except _NoEval:
+                    exact = None
+                if exact:
+                    ctx.ok(R_zl, {"raw_deflate_guard": "rejects every legal RFC 1950 header"})
+                else:
+                    t_ = next(t for bb, t in raw_new if bb == wit)
+                    ctx.bad(R_zl, "zlib::decompress|raw-deflate-chosen-by-header-byte", "%s:%d" % (zf.file, t_["ln"]),
+                            "a raw-deflate decoder is reached without the zlib decoder having been tried" + ("" if exact is None else "; its guard sends the legal zlib header %02X %02X to it" % bad_hdr),
+                            "zlib streams written with a window smaller than 32 KiB (first byte 0x68/0x58/0x48…, as deflateInit2 emits) are legal method-0x02 data and fail to decompress")
 
     # names are hashed byte-wise (interoperability of non-ASCII names); the kernels themselves are decided under C04
     from .c04 import name_hash_iterates_bytes
